@@ -191,6 +191,18 @@ Additions for the training data of the sparse-combo models (core.py add_observat
                       (the object x) is rebound.  Any other `<subscript>.append(...)` is refused.
   cfg["typed_targets"]  True: the targets of a `for` loop are bound with their declared types (`let x : T := it in`), which Coq
                       needs when the body tests a target (`if mask:`) before the iterated list has fixed its type
+Additions for data.py (the id encoders: numpy_array_is_0_indexed_integers, encode_*_to_0_indexed_ids, the id run of Screen.__init__):
+  cfg["plain_contexts"]  [patterns]: `with E:` WITHOUT a target over a declared pattern is its body; the configuration TRUSTS
+                      that entering / leaving the context changes no value the function uses (pandas.option_context: a
+                      library option).  `return` inside needs cfg["with_return"]; any other target-less `with` is refused.
+  cfg["retype_effects"]  [(statement pattern, variable, template over {state} and the holes, type before, type after,
+                      {hole: type})]: an assignment to a subscript / attribute of a variable, or a `del` statement, that
+                      updates the object held in that variable in place and may CHANGE ITS TYPE (a DataFrame gaining or
+                      losing a column: `df[c] = s`, `del df[c]`, `df.loc[l, c] = v`).  The variable must be bound at
+                      `type before` (refused otherwise) and is rebound at `type after`: `let x : after := template in`; a
+                      template starting with `!` denotes a `result after`.  Aliasing is not modelled, as for cfg["fields"].
+  if/else + `T1 | T2`   a variable declared at several types that both branches leave bound has, after the `if`, the type it
+                      has at the END of the branches, which must be the same in both (refused otherwise)
 """
 import ast
 
@@ -308,6 +320,10 @@ class Tr:
         # keyword-argument calls: {callee: (template, result type, [(parameter, type, default term or None)])}
         self.kwcalls = {rn(f): (t, parse_type(ty), [(p, parse_type(pt), d) for p, pt, d in ps])
                         for f, (t, ty, ps) in cfg.get("kwcalls", {}).items()}
+        self.plain_contexts = [pat(p) for p in cfg.get("plain_contexts", [])]
+        self.retype_effects = [(spat(x[0]), rn(x[1]), x[2], parse_type(x[3]), parse_type(x[4]),
+                                {h: parse_type(t) for h, t in (x[5] if len(x) > 5 else {}).items()})
+                               for x in cfg.get("retype_effects", [])]
         # the exception monad: by default Lib/Sexp.result with integer tags; a configuration may name another one
         # (type constructor, bind notation keyword, unit, fold, checked unwrap) whose errors carry data
         m = dict(type="result", bind="dor", ok="Ok", fold="res_fold", unwrap="unwrap")
@@ -747,6 +763,8 @@ class Tr:
                     if self.unify(patn, st, {}):
                         add(var)
                         break
+            elif self.retype_match(st) is not None:
+                add(self.retype_match(st)[0])
             elif isinstance(st, ast.Assign):
                 for patn, svars, _t, _v, _a in self.state_calls:
                     if self.unify(patn, st.value, {}):
@@ -807,6 +825,9 @@ class Tr:
                     add(n)
                 if st.orelse:
                     raise Unsupported("while/else")
+            elif isinstance(st, ast.With) and self.plain_with(st):
+                for n in self.assigned(st.body):
+                    add(n)
             elif isinstance(st, ast.With):
                 for n in [self.with_item(st)[0]] + self.assigned(st.body):
                     add(n)
@@ -896,6 +917,12 @@ class Tr:
         hoist = []
         if isinstance(st, ast.AnnAssign) and isinstance(st.target, ast.Name) and st.value is not None and st.simple:
             st = ast.Assign(targets=[st.target], value=st.value)      # `x: T = e` is `x = e`
+        if self.retype_match(st) is not None:
+            return self.retype_store(st, rest, env, k, ind)
+        if isinstance(st, ast.With) and self.plain_with(st):
+            if self.has_jump(st.body, (ast.Continue,) if self.cfg.get("with_return") else (ast.Continue, ast.Return)):
+                raise Unsupported("continue/return inside a with block")
+            return self.block(list(st.body) + rest, env, k, ind)
         if isinstance(st, ast.Assign):
             for patn, var, tmpl in self.assign_effects:
                 binds = {}
@@ -1109,12 +1136,20 @@ class Tr:
             vs = [v for v in allv if v in vs or v in both]     # assigned on both paths: bound afterwards
             dropped = [v for v in allv if v not in vs]
             ret = lambda env2, jump=None: "%s    %s %s\n" % (ind, self.M["ok"], tuple_term(vs)) if jump is None else self.unsupported("jump in if")
+            ends, ret0 = [], ret
+            ret = lambda env2, jump=None: (ends.append(env2), ret0(env2, jump))[1]
             tb = self.block(st.body, env, ret, ind + "    ")
             te = self.block(st.orelse, env, ret, ind + "    ")
             txt = "%s%s %s <- (if %s then\n%s%s  else\n%s%s  );\n" % (ind, self.M["bind"], self.bind_pat(vs), c, tb, ind, te, ind)
             env_after = dict(env)
             for v in both:
                 env_after[v] = self.var_type(v)
+            for v in vs:
+                if self.vars.get(v, ("",))[0] == "alt":     # declared `T1 | T2`: the type it has where the branches end
+                    tys = set(e2.get(v) for e2 in ends)
+                    if len(tys) != 1 or len(ends) != 2:
+                        raise Unsupported("variable %s leaves the branches of `%s` at different types" % (v, ast.unparse(st.test)))
+                    env_after[v] = tys.pop()
             for v in dropped:
                 txt += "%slet %s := tt in\n" % (ind, v)   # poison: a later read is a type error
                 env_after[v] = ("unit",)
@@ -1139,6 +1174,45 @@ class Tr:
             txt = "%slet %s : %s := %s in\n" % (ind, x, coq_type(ty), tmpl.format(**args))
             return self.bind_hoist(hoist, txt, ind) + self.block(list(st.body) + rest, env2, k, ind)
         raise Unsupported("statement: " + ast.unparse(st)[:80])
+
+    # ---- cfg["plain_contexts"], cfg["retype_effects"]
+    def plain_with(self, st):
+        """`with E:` without a target, E a declared cfg["plain_contexts"] pattern"""
+        return len(st.items) == 1 and st.items[0].optional_vars is None \
+            and any(self.unify(p, st.items[0].context_expr, {}) for p in self.plain_contexts)
+
+    def retype_match(self, st):
+        """(variable, template, type before, type after, hole types, bindings) when [st] is a declared cfg["retype_effects"] statement"""
+        if not isinstance(st, (ast.Assign, ast.Delete)):
+            return None
+        for patn, var, tmpl, before, after, argtys in self.retype_effects:
+            binds = {}
+            if self.unify(patn, st, binds):
+                return var, tmpl, before, after, argtys, binds
+        return None
+
+    def retype_store(self, st, rest, env, k, ind):
+        var, tmpl, before, after, argtys, binds = self.retype_match(st)
+        if env.get(var) != before:
+            raise Unsupported("in-place update `%s` of %s, which is not bound at %s here" % (ast.unparse(st)[:60], var, before))
+        declared = self.var_type(var)
+        if after != declared and not (declared[0] == "alt" and after in declared[1]):
+            raise Unsupported("in-place update rebinds %s at a type it is not declared at: %s" % (var, after))
+        hoist, args = [], {}
+        for kk, v in binds.items():
+            a, at = self.expr(v, env, hoist)
+            args[kk[2:]] = self.need(a, at, argtys[kk[2:]], hoist) if kk[2:] in argtys else a
+        args["state"] = var
+        env2 = dict(env)
+        env2[var] = after
+        if tmpl.startswith("!"):
+            if self.M["type"] != "result":
+                raise Unsupported("in-place update that may raise under a non-default monad")
+            n = self.new("r")
+            txt = "%sdor %s <- %s;\n%slet %s : %s := %s in\n" % (ind, n, tmpl[1:].format(**args), ind, var, coq_type(after), n)
+        else:
+            txt = "%slet %s : %s := %s in\n" % (ind, var, coq_type(after), tmpl.format(**args))
+        return self.bind_hoist(hoist, txt, ind) + self.block(rest, env2, k, ind)
 
     # ---- with blocks (cfg["contexts"]) and statement-run primitives (cfg["stmt_prims"])
     def with_item(self, st):
